@@ -54,4 +54,17 @@ def renumber (i0 : Nat) (l : List MMsg) : List MMsg := l.zipIdx.map fun (m, k) =
 /-- `SequentialMultiIterator`: concatenation, renumbered -/
 def seqChain (i0 : Nat) (srcs : List (List MMsg)) : List MMsg := renumber i0 srcs.flatten
 
+/-- `SortingMultiReaderIterator::new_or_single_it`: exactly one source is handed back as it is - "the start_index is
+    ignored for the single iterator case" (doc comment) - otherwise the merge -/
+def mergeOrSingle (i0 : Nat) (srcs : List (List MMsg)) : List MMsg :=
+  match srcs with
+  | [s] => s
+  | _ => renumber i0 (merge srcs)
+
+/-- `SequentialMultiIterator::new_or_single_it`: the same shortcut for a family of exactly one source -/
+def chainOrSingle (i0 : Nat) (srcs : List (List MMsg)) : List MMsg :=
+  match srcs with
+  | [s] => s
+  | _ => seqChain i0 srcs
+
 end Mrg
